@@ -244,7 +244,7 @@ def make_run(cfg):
                     V("server-side-socket-not-closed|%s|%s" % (cfg["server"], ecls), "%r" % open_srv)
                 ts = d.transportServer
                 if cfg["server"] == "thread":
-                    if ts.pool.busy and ecls != "method-exits":
+                    if ts.pool.busy:
                         V("worker-slot-not-released|%s" % ecls, "busy=%r" % ts.pool.busy)
                 else:
                     m = ts.selector.get_map()
@@ -304,7 +304,7 @@ def configs(quick):
                                 "r": 1, "horizon": 4000})
     # a remote method that ends with a BaseException which is no Exception (SystemExit): the thread server's connection ends there; the
     # hook, the tracked resources, the session instance and the socket are judged (the multiplex server's loop itself ends with it, so
-    # there is no running daemon left to judge; what becomes of the worker thread is C18's business)
+    # there is no running daemon left to judge)
     for tracked, untracked in ((0, 0), (2, 1)):
         out.append({"server": "thread", "ending": "method-exits", "tracked": tracked, "untracked": untracked, "other": True, "p": 1, "r": 1 if quick else 2, "horizon": 4000})
     for ending in (("handshake-then-close", "reset@40") if quick else ("handshake-then-close", "reset@40", "release", "malformed")):
